@@ -10,12 +10,18 @@
 (* while the node serves, a request is answered exactly once per TCP port that is open  *)
 (* NOW, with the identity of NOW; a node that is shut down (or did not come up) is      *)
 (* silent.                                                                              *)
+(* The responder runs in a thread of its own: between its creation (socket bound,       *)
+(* thread started) and the first statement of that thread the server may already be     *)
+(* restarted or shut down.  A responder is CREATED, later RUNNING; shutting down a       *)
+(* created one closes its socket, so that it ends as soon as it runs.  Answers are      *)
+(* judged when no created thread is pending (Probe).                                    *)
 EXTENDS Integers, Sequences, FiniteSets, TLC
 
 CONSTANTS MaxIf,        \* maximal number of configured interfaces
           MaxGen,       \* maximal number of (re)starts
           RestartRule,  \* DESIGN parameter: "stop_old" (as repaired) | "leak"
-          PortRule      \* DESIGN parameter: "opened" (as implemented) | "configured" | "sticky"
+          PortRule,     \* DESIGN parameter: "opened" (as implemented) | "configured" | "sticky"
+          ShutdownRule  \* DESIGN parameter: "close_always" (as implemented) | "guarded" (no-op unless running)
 
 Schemes == {"tcp", "ws"}
 
@@ -24,10 +30,12 @@ VARIABLES cfg,      \* sequence of interface schemes
           ever,     \* indices that were open in some generation (only used by the "sticky" design)
           phase,    \* "down" | "up" | "stopped"
           gen,      \* number of (re)starts so far
-          live,     \* generations whose responder thread still runs
+          created,  \* generations whose responder exists but whose thread has not executed anything yet
+          closed,   \* generations whose socket was closed
+          live,     \* generations whose responder thread runs (serves requests)
           given,    \* generation -> port indices handed to its responder
           last      \* observable outcome of the last operation (incl. a probe request)
-wvars == <<cfg, up, ever, phase, gen, live, given, last>>
+wvars == <<cfg, up, ever, phase, gen, created, closed, live, given, last>>
 
 Tcp(c) == {i \in 1 .. Len(c) : c[i] = "tcp"}
 (* the ports a responder started now is given *)
@@ -44,33 +52,52 @@ Answers(lv, gv) == UNION {{<<g, i>> : i \in gv[g]} : g \in lv}
 
 Seqs(n) == UNION {[1 .. k -> Schemes] : k \in 1 .. n}
 WInit == /\ cfg \in Seqs(MaxIf) /\ up = {} /\ ever = {} /\ phase = "down" /\ gen = 0 /\ live = {}
+         /\ created = {} /\ closed = {}
          /\ given = <<>> /\ last = [kind |-> "none"]
 
-(* (re)start with the interfaces u coming up *)
-Come(kind, u) ==
+(* UDPListener.shutdown of generation g *)
+CanClose(g) == ShutdownRule = "close_always" \/ g \in live
+Stopped(g) == IF RestartRule = "stop_old" /\ g > 0 /\ CanClose(g) THEN {g} ELSE {}
+
+(* (re)start with the interfaces u coming up; held: the new responder thread does not run yet *)
+Come(kind, u, held) ==
     /\ up' = u /\ ever' = ever \cup u
+    /\ closed' = closed \cup Stopped(gen)
     /\ IF Serving(u, ever)
        THEN /\ phase' = "up" /\ gen' = gen + 1
-            /\ live' = (IF RestartRule = "stop_old" THEN {} ELSE live) \cup {gen + 1}
+            /\ created' = IF held THEN created \cup {gen + 1} ELSE created
+            /\ live' = (live \ Stopped(gen)) \cup (IF held THEN {} ELSE {gen + 1})
             /\ given' = Append(given, Ports(cfg, u, ever))
        ELSE /\ phase' = "stopped" /\ gen' = gen                    \* "no interface started": run() returns
-            /\ live' = IF RestartRule = "stop_old" THEN {} ELSE live
+            /\ created' = created /\ live' = live \ Stopped(gen)
             /\ given' = given
-    /\ last' = [kind |-> kind, answers |-> Answers(live', given')]
+    /\ last' = [kind |-> kind]
     /\ UNCHANGED cfg
 
-Boot == phase = "down" /\ \E u \in SUBSET (1 .. Len(cfg)) : Come("boot", u)
-Restart == phase = "up" /\ gen < MaxGen /\ \E u \in SUBSET (1 .. Len(cfg)) : Come("restart", u)
+Boot == phase = "down" /\ \E u \in SUBSET (1 .. Len(cfg)), h \in BOOLEAN : Come("boot", u, h)
+Restart == phase = "up" /\ gen < MaxGen /\ \E u \in SUBSET (1 .. Len(cfg)), h \in BOOLEAN : Come("restart", u, h)
 
 Shutdown == /\ phase = "up"
             /\ phase' = "stopped" /\ up' = {}
-            /\ live' = IF RestartRule = "stop_old" THEN {} ELSE live \ {gen}
-            /\ last' = [kind |-> "shutdown", answers |-> Answers(live', given)]
-            /\ UNCHANGED <<cfg, ever, gen, given>>
+            /\ closed' = closed \cup Stopped(gen)
+            /\ live' = live \ Stopped(gen)
+            /\ last' = [kind |-> "shutdown"]
+            /\ UNCHANGED <<cfg, ever, gen, created, given>>
 
-WNext == Boot \/ Restart \/ Shutdown
+(* the pending responder threads get the processor: one whose socket is closed ends at once *)
+RunAll == /\ created # {}
+          /\ created' = {} /\ live' = live \cup (created \ closed)
+          /\ last' = [kind |-> "run"]
+          /\ UNCHANGED <<cfg, up, ever, phase, gen, closed, given>>
+
+(* a broadcast request, once every thread has had its turn *)
+Probe == /\ created = {} /\ last.kind \notin {"probe", "none"}
+         /\ last' = [kind |-> "probe", answers |-> Answers(live, given)]
+         /\ UNCHANGED <<cfg, up, ever, phase, gen, created, closed, live, given>>
+
+WNext == Boot \/ Restart \/ Shutdown \/ RunAll \/ Probe
 WSpec == WInit /\ [][WNext]_wvars
 
-OneResponder == IF phase = "up" THEN live = {gen} ELSE live = {}
-AnswersTrue == last.kind # "none" => last.answers = Demanded(cfg, up, phase, gen)
+OneResponder == created = {} => (IF phase = "up" THEN live = {gen} ELSE live = {})
+AnswersTrue == last.kind = "probe" => last.answers = Demanded(cfg, up, phase, gen)
 =============================================================================
